@@ -1184,6 +1184,7 @@ fn run(v: &Value) -> Result<String, String> {
                 }
             }
             // ---- hostile headers: every combination of boundary values in the three length fields ----
+            let hostile_rt = tokio::runtime::Builder::new_current_thread().build().unwrap();
             for &len in &edge64 { for &q in &edge64 { for &b in &edge64 {
                 let mut h = repe::Header::new();
                 h.length = len; h.query_length = q; h.body_length = b;
@@ -1205,6 +1206,11 @@ fn run(v: &Value) -> Result<String, String> {
                         let r2 = repe::read_message_into(&mut &buf[..n], &mut into);
                         let whole = consistent && (n as u128) >= 48 + q as u128 + b as u128;
                         if r.is_ok() != whole || r2.is_ok() != whole { return Err(format!("a stream reader's outcome is wrong for length={len} q={q} b={b} on {n} bytes")); }
+                        // the two async twins
+                        let r3 = hostile_rt.block_on(repe::async_io::read_message_async(&mut &buf[..n]));
+                        let mut into3 = Vec::new();
+                        let r4 = hostile_rt.block_on(repe::async_io::read_message_into_async(&mut &buf[..n], &mut into3));
+                        if r3.is_ok() != whole || r4.is_ok() != whole { return Err(format!("an async stream reader's outcome is wrong for length={len} q={q} b={b} on {n} bytes")); }
                     }
                     cases += 1;
                 }
